@@ -15,7 +15,7 @@ RULE = ("sm units: one instance of each workflow state; for all 9 (state instanc
         "compared with an independent BFS over the declared graph Start -> Symbolic_Model -> Fit_Model (length, "
         "raises when unreachable), the returned path is executed with getattr and must end in the target with "
         "history extended by exactly the visited states; non-StateId targets must raise.  small units: fit_model "
-        "with 0/1/2 rows must raise ModelFitError.  grid units: fit_model over shuffled grids of "
+        "with 0/1/2 rows (with and without the optional strategy arguments) must raise ModelFitError.  grid units: fit_model over shuffled grids of "
         "innovation_filtering / max_dt_sec / common_subexpression_elimination values distinct from the defaults "
         "with a recording GridSearchCV subclass: every candidate and best_params_[k] is an element of grid[k] and "
         "export_python().config.<k> == best_params_[k]; grids also with single-valued entries and over the whole "
@@ -228,11 +228,20 @@ def _small(R, rng, ctx):
     defn = small_defn(rng)
     b = build.Built(defn)
     sms = ui.DesignManager(name="vf").symbolic_model(model=b.ui_model)
+    from sklearn.model_selection import GridSearchCV, TimeSeriesSplit
+
+    # the optional strategy arguments of fit_model do not change what a usable data set is
+    opts = [{}, {"cross_validation_strategy": TimeSeriesSplit}, {"parameter_sampling_strategy": GridSearchCV},
+            {"cross_validation_strategy": TimeSeriesSplit, "parameter_sampling_strategy": GridSearchCV}]
+    rng.shuffle(opts)
     for rows in (0, 1, 2):
         X = data_for(rng, defn, rows) if rows else np.zeros((0, 2))
         R.evals += 1
+        kw = opts[rows]
+        if kw:
+            R.stats.inc("too_small_with_strategy_arguments")
         try:
-            sms.fit_model(parameter_space=space_for(b, {}), data=X)
+            sms.fit_model(parameter_space=space_for(b, {}), data=X, **kw)
             R.add([K.V("fit_model:too-small-accepted", f"fit_model accepted a data set of {rows} rows", rows=rows, defn=defn)])
         except ModelFitError:
             R.stats.inc("too_small_refused")
